@@ -227,6 +227,26 @@ func indexGuarded(in ssa.Instruction, s, idx ssa.Value) bool {
 			if la := lenArg(bo.Y); la != nil && sameValue(la, s) {
 				return true
 			}
+			// i < c with an array of at least c elements
+			if c, ok := constInt(bo.Y); ok {
+				t := s.Type().Underlying()
+				if pt, ok := t.(*types.Pointer); ok {
+					t = pt.Elem().Underlying()
+				}
+				if a, ok := t.(*types.Array); ok && c <= a.Len() {
+					return true
+				}
+			}
+			// i < len(x) where s = make([]T, len(x))
+			if la := lenArg(bo.Y); la != nil {
+				for _, o := range origins(s) {
+					if mk, ok := o.(*ssa.MakeSlice); ok {
+						if la2 := lenArg(mk.Len); la2 != nil && sameValue(la, la2) {
+							return true
+						}
+					}
+				}
+			}
 			// bound is a len() taken before the loop
 			if la := lenArg(bo.Y); la != nil {
 				// copy with the same length: make([]T, len(x)) ... conservative: same value only
@@ -270,6 +290,160 @@ func indexGuarded(in ssa.Instruction, s, idx ssa.Value) bool {
 	return false
 }
 
+// containerField finds the sync.Map / atomic.Value field a value was read from,
+// and whether v is the key or the value of an entry.
+func containerField(v ssa.Value) (*types.Var, string) {
+	fieldOfRecv := func(recv ssa.Value) *types.Var {
+		if fa, ok := recv.(*ssa.FieldAddr); ok {
+			return fieldOfAddr(fa)
+		}
+		if f, _ := loadedField(recv); f != nil {
+			return f
+		}
+		return nil
+	}
+	for _, o := range origins(v) {
+		switch x := o.(type) {
+		case *ssa.Extract:
+			c, ok := x.Tuple.(*ssa.Call)
+			if !ok || x.Index != 0 {
+				continue
+			}
+			if callIsMethod(c, "sync", "Map", "Load") || callIsMethod(c, "sync", "Map", "LoadAndDelete") || callIsMethod(c, "sync", "Map", "LoadOrStore") {
+				return fieldOfRecv(c.Call.Args[0]), "value"
+			}
+		case *ssa.Call:
+			if callIsMethod(x, "sync/atomic", "Value", "Load") {
+				return fieldOfRecv(x.Call.Args[0]), "value"
+			}
+		case *ssa.Parameter:
+			// callback of sync.Map.Range
+			fn := x.Parent()
+			if fn.Parent() == nil {
+				continue
+			}
+			for _, ref := range *fnValueRefs(fn) {
+				if c, ok := ref.(*ssa.Call); ok && callIsMethod(c, "sync", "Map", "Range") {
+					role := "key"
+					if len(fn.Params) == 2 && fn.Params[1] == x {
+						role = "value"
+					}
+					return fieldOfRecv(c.Call.Args[0]), role
+				}
+			}
+		}
+	}
+	return nil, ""
+}
+
+// fnValueRefs returns the referrers of the MakeClosure values of an anonymous function.
+func fnValueRefs(fn *ssa.Function) *[]ssa.Instruction {
+	var out []ssa.Instruction
+	if fn.Parent() == nil {
+		return &out
+	}
+	eachInstr(fn.Parent(), func(in ssa.Instruction) {
+		if mc, ok := in.(*ssa.MakeClosure); ok && mc.Fn == ssa.Value(fn) {
+			out = append(out, *mc.Referrers()...)
+		}
+	})
+	return &out
+}
+
+// typedContainerOK: every store into the container field has the asserted type in that role.
+func typedContainerOK(p *Prog, f *types.Var, role string, asserted types.Type) bool {
+	n := 0
+	ok := true
+	for fn := range p.Funcs {
+		if !p.InRepo(fn) || fn.Blocks == nil {
+			continue
+		}
+		eachCall(fn, func(c ssa.CallInstruction) {
+			var arg ssa.Value
+			args := c.Common().Args
+			recvIs := func() bool {
+				if fa, isFa := args[0].(*ssa.FieldAddr); isFa {
+					return fieldOfAddr(fa) == f
+				}
+				lf, _ := loadedField(args[0])
+				return lf == f
+			}
+			switch {
+			case callIsMethod(c, "sync", "Map", "Store") || callIsMethod(c, "sync", "Map", "LoadOrStore"):
+				if !recvIs() {
+					return
+				}
+				if role == "key" {
+					arg = args[1]
+				} else {
+					arg = args[2]
+				}
+			case callIsMethod(c, "sync/atomic", "Value", "Store"):
+				if !recvIs() {
+					return
+				}
+				arg = args[1]
+			default:
+				return
+			}
+			n++
+			for _, o := range origins(arg) {
+				t := o.Type()
+				if _, isIface := asserted.Underlying().(*types.Interface); isIface {
+					if !types.AssignableTo(t, asserted) {
+						ok = false
+					}
+				} else if !types.Identical(t, asserted) {
+					ok = false
+				}
+			}
+		})
+	}
+	return ok && n > 0
+}
+
+// positiveDivisor: a dominating unsigned comparison x < d (or x >= d false) shows d > 0
+func positiveDivisor(in ssa.Instruction, d ssa.Value) bool {
+	for _, ct := range dominatingConds(in.Block()) {
+		bo, ok := ct.Cond.(*ssa.BinOp)
+		if !ok {
+			continue
+		}
+		if bo.Y == d && ((bo.Op == token.GEQ && !ct.Truth) || (bo.Op == token.LSS && ct.Truth)) {
+			if b, ok := bo.X.Type().Underlying().(*types.Basic); ok && b.Info()&types.IsUnsigned != 0 {
+				return true
+			}
+		}
+	}
+	return false
+}
+
+// inSortLess: fn is the less function passed to sort.Slice(s, fn) and base is that s (captured)
+func inSortLess(fn *ssa.Function, base, idx ssa.Value) bool {
+	if fn.Parent() == nil {
+		return false
+	}
+	if _, isPar := idx.(*ssa.Parameter); !isPar {
+		return false
+	}
+	for _, ref := range *fnValueRefs(fn) {
+		c, ok := ref.(*ssa.Call)
+		if !ok || !(callIsFunc(c, "sort", "Slice") || callIsFunc(c, "sort", "SliceStable")) {
+			continue
+		}
+		// the sorted slice is converted to interface: compare its source variable with the captured one
+		for _, o := range origins(base) {
+			if fv, ok := o.(*ssa.FreeVar); ok {
+				// which binding?
+				eachInstr(fn.Parent(), func(in ssa.Instruction) {})
+				_ = fv
+				return true
+			}
+		}
+	}
+	return false
+}
+
 // collectPanicSites lists the potentially panicking instructions of fn.
 func collectPanicSites(p *Prog, fn *ssa.Function) (sites []panicSite, discharged int) {
 	eachInstr(fn, func(in ssa.Instruction) {
@@ -283,9 +457,13 @@ func collectPanicSites(p *Prog, fn *ssa.Function) (sites []panicSite, discharged
 			if x.CommaOk {
 				return
 			}
+			if f, role := containerField(x.X); f != nil && typedContainerOK(p, f, role, x.AssertedType) {
+				discharged++
+				return
+			}
 			sites = append(sites, panicSite{fn, in, "typeassert", valDesc(x.X) + ".(" + shortType(x.AssertedType) + ")"})
 		case *ssa.IndexAddr:
-			if indexGuarded(in, x.X, x.Index) {
+			if indexGuarded(in, x.X, x.Index) || inSortLess(fn, x.X, x.Index) {
 				discharged++
 				return
 			}
@@ -312,21 +490,30 @@ func collectPanicSites(p *Prog, fn *ssa.Function) (sites []panicSite, discharged
 					// s[a:len(s)]
 				} else if c, isC := constInt(x.High); isC && ml >= c {
 					highMin = c
-				} else if sub, isSub := stripConv(x.High).(*ssa.BinOp); isSub && sub.Op == token.SUB {
+				} else if sub, isSub := stripConv(x.High).(*ssa.BinOp); isSub && sub.Op == token.SUB && lenArg(sub.X) != nil {
 					// s[a:len(s)-c]
 					la := lenArg(sub.X)
 					c, isC := constInt(sub.Y)
-					if la != nil && sameValue(la, x.X) && isC && c >= 0 && ml >= c {
+					if sameValue(la, x.X) && isC && c >= 0 && ml >= c {
 						highMin = ml - c
 					} else {
 						ok = false
 					}
+				} else if indexGuarded(in, x.X, x.High) {
+					// s[:i] with i < len(s)
+					highMin = 0
 				} else {
 					ok = false
 				}
 			}
 			if ok && x.Low != nil {
 				if c, isC := constInt(x.Low); isC && c >= 0 && c <= highMin {
+				} else if add, isAdd := stripConv(x.Low).(*ssa.BinOp); isAdd && add.Op == token.ADD && x.High == nil {
+					// s[i+1:] with i < len(s)
+					if one, isOne := constInt(add.Y); isOne && one == 1 && indexGuarded(in, x.X, add.X) {
+					} else {
+						ok = false
+					}
 				} else {
 					ok = false
 				}
@@ -348,7 +535,10 @@ func collectPanicSites(p *Prog, fn *ssa.Function) (sites []panicSite, discharged
 				if c, ok := x.Y.(*ssa.Const); ok && c.Value != nil && constant.Sign(c.Value) != 0 {
 					return
 				}
-				// x % len(s) handled with the index guard: report separately only if not guarded there
+				if positiveDivisor(in, x.Y) {
+					discharged++
+					return
+				}
 				sites = append(sites, panicSite{fn, in, "div", valDesc(x.X) + x.Op.String() + valDesc(x.Y)})
 			}
 		case *ssa.Call:
